@@ -20,7 +20,7 @@ def sh(cmd, **kw):
 
 def main():
     d = os.path.abspath(sys.argv[1])
-    pids = [a for a in sys.argv[2:] if not a.startswith("--")]
+    pids = [a for a in sys.argv[2:] if not a.startswith("--")]  # flags: --baseline (whole pinned suite), --subset (the touched packages)
     baseline = "--baseline" in sys.argv
     wt = f"/tmp/st_{os.path.basename(d)}_{os.getpid()}"
     meta_path = os.path.join(d, "meta.json")
@@ -38,6 +38,38 @@ def main():
         m = sh(f"timeout 900 {PY} {d}/demo.py {wt}", env=env)
         meta["demo"] = {"clean_exit": c.returncode, "patched_exit": m.returncode, "patched_output": (m.stdout + m.stderr)[-600:]}
         print("demo: clean", c.returncode, "patched", m.returncode)
+        if "--subset" in sys.argv:
+            # the pinned suite restricted to the packages the patch touches (plus the top-level test files for top-level modules):
+            # every test of BASELINE.stable_pass that lives there must still pass on the patched tree
+            import xml.etree.ElementTree as ET
+            touched = re.findall(r"^\+\+\+ b/(\S+)", open(f"{d}/patch.diff").read(), re.M)
+            paths = set()
+            for t in touched:
+                parts = t.split("/")
+                if t.startswith("jumanji/environments/commons"):
+                    paths |= {"jumanji/environments/commons", "jumanji/environments/routing/maze", "jumanji/environments/routing/cleaner", "jumanji/environments/routing/pac_man"}
+                elif t.startswith("jumanji/environments/") and len(parts) >= 5:
+                    paths.add("/".join(parts[:4]))
+                else:
+                    paths |= {"jumanji/wrappers_test.py", "jumanji/specs_test.py", "jumanji/registration_test.py", "jumanji/tree_utils_test.py", "jumanji/types_test.py", "jumanji/testing", "jumanji/env_test.py"}
+            paths = sorted(p for p in paths if os.path.exists(os.path.join(wt, p)))
+            jx = f"/tmp/st_junit_{os.getpid()}.xml"
+            sh(f"cd {wt} && timeout 2400 {PY} -m pytest -q -p no:cacheprovider -n 4 --timeout=900 --junitxml={jx} {' '.join(paths)}", env=env)
+            want = set(json.load(open("/root/.vp/BASELINE.json"))["stable_pass"])
+            mods = tuple(p[:-3].replace("/", ".") if p.endswith(".py") else p.replace("/", ".") + "." for p in paths)
+            want = {w for w in want if w.startswith(mods)}
+            ok = set()
+            try:
+                for tc in ET.parse(jx).iter("testcase"):
+                    if not any(c.tag in ("failure", "error", "skipped") for c in tc):
+                        ok.add(tc.get("classname") + "::" + tc.get("name"))
+            except Exception as e:  # noqa: BLE001
+                print("junit unreadable", e)
+            missing = sorted(want - ok)
+            meta["baseline_subset"] = {"paths": paths, "stable_pass_there": len(want), "passed_now": len(want & ok), "missing": missing[:10]}
+            print("baseline subset:", meta["baseline_subset"])
+            if os.path.exists(jx):
+                os.remove(jx)
         if baseline:
             out = f"/tmp/st_base_{os.getpid()}"
             b = sh(f"BASELINE_OUT={out} {V}/tools/baseline_check.sh -n 6", env=dict(env, BASELINE_REPO=wt))
